@@ -210,7 +210,9 @@ fn small_stratified(rng: &mut Rng, inputs: &[(&'static str, usize)], order: &[(&
         }
         avail.push(*h);
     }
-    if rng.chance(25) {
+    // 0-3 constraints (`constraint_0`, `constraint_1`, .. in control_translate)
+    let n_constraints = rng.weighted(&[70, 18, 8, 4]);
+    for _ in 0..n_constraints {
         let c = t::PCfg { preds: &avail, head_preds: &avail, vars: &["X", "Y"], syms: &["a", "b"], arith: false, max_rules: 1, max_body: 2, choice: false, constraints: true };
         rules.push(asp::Rule { head: asp::Head::Falsity, body: t::p_body(rng, &c) });
     }
